@@ -670,6 +670,46 @@ def r5_dispatch_table(chk, prog):
     chk.require(n >= 32, 'dispatch combinations evaluated: %d' % n)
 
 
+def r6_value_list_predicate(chk, prog):
+    """Groups::evalArguments() asks every member valueListOpen() to find the owner of a free value; the member then
+    decides in evalSingleArgument() whether the value continues its last argument.  Both must be the same predicate
+    (same queries of mpLastArg): otherwise Groups hands a value to a member that treats it as positional / unknown
+    although a single handler would have stored it in the positional argument."""
+    vo = prog.one('celma::prog_args::Handler', 'valueListOpen')
+    ev = prog.one('celma::prog_args::Handler', 'evalSingleArgument')
+
+    def queries(expr):
+        return sorted({(c.get('callee') or '').split('(')[0].split('::')[-1] for c in walk(expr)
+                       if c.get('k') in CALL_KINDS and field_name(object_of(c)) == 'mpLastArg'})
+
+    def null_tested(expr):
+        return any(x.get('k') == 'BinaryOperator' and x.get('op') in ('!=', '==') and
+                   any(field_name(k) == 'mpLastArg' for k in children(x)) for x in walk(expr))
+
+    rets = [x for x in vo.walk() if x.get('k') == 'ReturnStmt']
+    chk.require(len(rets) == 1 and children(rets[0]), 'valueListOpen: single return expression expected')
+    mine = queries(children(rets[0])[0])
+    cfg = ev.cfg
+    theirs = None
+    nulls = False
+    for bid, cond in cfg.cond_blocks():
+        if cond is None or not mentions_field(cond, 'mpLastArg'):
+            continue
+        # `a && b` is two condition blocks: collect every condition whose true edge guards the assignment
+        direct = [c for c in ev.calls_to('TypedArgBase::assignValue')
+                  if field_name(object_of(c)) == 'mpLastArg' and cfg.guarded_by_edge(cfg.position(c), bid, 0)]
+        if direct:
+            theirs = sorted(set(theirs or []) | set(queries(cond)))
+            nulls = nulls or null_tested(cond)
+    if theirs is not None:
+        chk.check(nulls and null_tested(children(rets[0])[0]), 'R6', vo.name,
+                  'both predicates test mpLastArg against null', vo.loc())
+    chk.require(theirs is not None, 'evalSingleArgument: branch that assigns a further value to mpLastArg not found')
+    chk.check(mine == theirs, 'R6', vo.name,
+              'valueListOpen() is the predicate evalSingleArgument() uses to continue a value list', vo.loc(),
+              'valueListOpen asks %s, evalSingleArgument asks %s' % (mine, theirs))
+
+
 def run(chk):
     prog, units = rules.prog_args_program()
     chk.units = units
@@ -698,3 +738,5 @@ def run(chk):
     r4_membership_flag(chk, prog)
     chk.rule('R5', 'per-word agreement with a single handler: owner of a long key, keys end every open value list, \'last\' ends the evaluation, \'!\' inverts the next argument', 25)
     r5_dispatch_table(chk, prog)
+    chk.rule('R6', 'Groups and member handler agree on when a value list is open', 2)
+    r6_value_list_predicate(chk, prog)
